@@ -3,6 +3,8 @@ package main
 
 import (
 	"os"
+	"runtime"
+	"runtime/pprof"
 	"strconv"
 
 	"github.com/polynetwork/poly/common/config"
@@ -20,8 +22,21 @@ func atoi(s string) int {
 	return n
 }
 
+// workers: VERIF_WORKERS if set, else all cores.
+func workers() int {
+	if n, err := strconv.Atoi(os.Getenv("VERIF_WORKERS")); err == nil && n > 0 {
+		return n
+	}
+	return runtime.NumCPU()
+}
+
 func main() {
 	defer vio.Flush()
+	if p := os.Getenv("VD_PROF"); p != "" {
+		f, _ := os.Create(p)
+		pprof.StartCPUProfile(f)
+		defer pprof.StopCPUProfile()
+	}
 	if len(os.Args) < 2 {
 		vio.Fatal("usage: vd-eth <cmd> ...")
 	}
